@@ -291,6 +291,11 @@ func runCheck(prop, tier string, ovs []string, only string, writeBaseline, noRep
 				names = append(names, r.ob.Name)
 			}
 		}
+		for _, fr := range frs {
+			if fr.eng != nil {
+				names = append(names, fr.eng.trivial...)
+			}
+		}
 		sort.Strings(names)
 		os.MkdirAll(filepath.Join(verifDir, "baseline"), 0o755)
 		js, _ := json.MarshalIndent(baselineFile{Property: prop, Discharged: names}, "", " ")
@@ -330,6 +335,12 @@ func solveAll(all []*OblResult, timeout time.Duration) {
 				to = timeout / 2
 			}
 			sr := race(q, to, keep)
+			if sr.status == "unknown" && r.ob.Kind != "cover" {
+				// one retry with three times the budget: solver time varies with machine load
+				sr2 := race(q, 3*to, "")
+				sr2.dur += sr.dur
+				sr = sr2
+			}
 			r.status, r.solver, r.dur, r.detail = sr.status, sr.solver, sr.dur, sr.out
 		}(r)
 	}
@@ -408,7 +419,10 @@ func decide(ctx *Context, r *OblResult, prop string, baseline map[string]bool, t
 		}
 		r.note = "replay did not confirm: " + firstLineOf(log)
 	}
-	if baseline[r.ob.Name] {
+	// An obligation that was discharged on the unchanged tree and now has a counter-model (that the replay could not
+	// turn into a failing run) is reported with the solver's reason attached. A solver that merely gives up
+	// (unknown / timeout, also after the longer retry) is not evidence of a violation: undecided.
+	if baseline[r.ob.Name] && r.status == "sat" {
 		r.verdict = "violation-unconfirmed"
 		return
 	}
